@@ -62,7 +62,9 @@ def _configs(full):
             for mss in (2, 4):
                 for algo in ("none", "auto", "intercept_sort", "intercept_sort_always"):
                     for gamma, p1p2 in ((1.0, 0.09), (0.0, 0.25)) if full else ((1.0, 0.09),):
-                        for est in ("logreg", "tree"):
+                        for est in ("logreg", "tree", "logreg-noint"):
+                            if est == "logreg-noint" and (gamma, p1p2) != (1.0, 0.09):
+                                continue
                             if est == "tree" and algo == "intercept_sort_always":
                                 continue  # refused by design (assert): a non-linear model has no intercept
                             if not full and (mss == 4 or algo == "intercept_sort"):
@@ -117,7 +119,8 @@ def run_case(case):
     for depth, msl, mss, algo, gamma, p1p2, est in _configs(case["full"]):
         desc = "y=%r labels=%r max_depth=%d min_samples_leaf=%d min_samples_split=%d algo=%s gamma=%s p1p2=%s est=%s%s" % (
             case["y"], lab, depth, msl, mss, algo, gamma, p1p2, est, " X and the query batch stored as: " + case["layout"] if case.get("layout") else "")
-        base = LogisticRegression() if est == "logreg" else DecisionTreeClassifier(max_depth=1, random_state=0)
+        base = (LogisticRegression() if est == "logreg" else LogisticRegression(fit_intercept=False) if est == "logreg-noint"
+                else DecisionTreeClassifier(max_depth=1, random_state=0))
         try:
             m = DecisionTreeLogisticRegression(estimator=base, max_depth=depth, min_samples_leaf=msl,
                                                min_samples_split=mss, fit_improve_algo=algo, gamma=gamma, p1p2=p1p2)
